@@ -629,9 +629,72 @@ class Inliner:
             out.extend(self._stmt(fi, s, nested, depth))
         return out
 
+    def _comp_to_loops(self, fi, s, nested, depth) -> Optional[List[ast.stmt]]:
+        """A list comprehension that calls a resolvable helper (in a generator's iterable, a condition or the element) and is
+        evaluated before anything else of its statement that could interact with it:  S[comp]  ->  tmp = []; for ..: tmp.append(E);
+        S[tmp].  Comprehension variables are renamed (they are scoped to the comprehension)."""
+        if not isinstance(s, (ast.Assign, ast.Expr, ast.Return, ast.AnnAssign)) or getattr(s, "value", None) is None:
+            return None
+        if isinstance(s, ast.Assign) and not all(isinstance(t, ast.Name) for t in s.targets):
+            return None
+        comp = self._first_comp(s.value)
+        if comp is None or any(g.is_async for g in comp.generators):
+            return None
+        calls = [c for c in ast.walk(comp) if isinstance(c, ast.Call) and self._resolve(fi, c, nested) is not None]
+        if not calls:
+            return None
+        if any(isinstance(x, (ast.Lambda, ast.ListComp, ast.SetComp, ast.DictComp, ast.GeneratorExp, ast.NamedExpr, ast.Yield,
+                              ast.YieldFrom, ast.Await)) for x in ast.walk(comp) if x is not comp):
+            return None
+        self.k += 1
+        suffix = f"__c{self.k}"
+        bound = set()
+        for g in comp.generators:
+            bound |= {n.id for n in ast.walk(g.target) if isinstance(n, ast.Name)}
+        rn = _Rename({b: b + suffix for b in bound}, {})
+        tmp = f"items{suffix}"
+        body: List[ast.stmt] = [ast.Expr(value=ast.Call(func=ast.Attribute(value=ast.Name(id=tmp, ctx=ast.Load()), attr="append",
+                                                                       ctx=ast.Load()),
+                                                    args=[rn.visit(copy.deepcopy(comp.elt))], keywords=[]))]
+        for g in reversed(comp.generators):
+            if g.ifs:
+                conds = [rn.visit(copy.deepcopy(c)) for c in g.ifs]
+                test = conds[0] if len(conds) == 1 else ast.BoolOp(op=ast.And(), values=conds)
+                body = [ast.If(test=test, body=body, orelse=[])]
+            body = [ast.For(target=rn.visit(copy.deepcopy(g.target)), iter=rn.visit(copy.deepcopy(g.iter)), body=body, orelse=[],
+                            type_comment=None)]
+        init = ast.Assign(targets=[ast.Name(id=tmp, ctx=ast.Store())], value=ast.List(elts=[], ctx=ast.Load()))
+        _replace(s, comp, ast.Name(id=tmp, ctx=ast.Load()))
+        out = [init] + body + [s]
+        for x in out:
+            ast.copy_location(x, s)
+            ast.fix_missing_locations(x)
+        self.inlined.append((fi.qualname, "<comprehension>"))
+        return self._block(fi, [init] + body, nested, depth + 1) + self._stmt(fi, s, nested, depth + 1)
+
+    @staticmethod
+    def _first_comp(e: ast.AST) -> Optional[ast.ListComp]:
+        """The list comprehension that is evaluated first in e: e itself, or the first argument of a call whose callee is a
+        (dotted) name, recursively."""
+        for _ in range(4):
+            if isinstance(e, ast.ListComp):
+                return e
+            if isinstance(e, ast.Call) and e.args and _only_names(e.func if not isinstance(e.func, ast.Attribute) else e.func.value) \
+                    and not any(isinstance(a, ast.Starred) for a in e.args):
+                e = e.args[0]
+                continue
+            return None
+        return None
+
     def _stmt(self, fi, s, nested, depth) -> List[ast.stmt]:
         if depth > 6:
             return [s]
+        try:
+            r0 = self._comp_to_loops(fi, s, nested, depth)
+        except Unsupported:
+            r0 = None
+        if r0 is not None:
+            return r0
         try:
             self._subst_expr_helpers(fi, s, nested)
         except Unsupported:
@@ -841,7 +904,19 @@ class Inliner:
 
     def _inline_stmt(self, fi, s, nested, depth) -> Optional[List[ast.stmt]]:
         if isinstance(s, ast.For):
-            return self._inline_for_generator(fi, s, nested, depth)
+            r = self._inline_for_generator(fi, s, nested, depth)
+            if r is None and isinstance(s.iter, ast.Call):
+                # for v in self._helper(..): BODY   ->   it = self._helper(..); for v in it: BODY   (the iterable is evaluated once,
+                # before the first iteration, in both spellings); the assignment is then inlined like any other
+                hit = self._resolve(fi, s.iter, nested)
+                if hit is not None and not _contains(hit[0].node, (ast.Yield, ast.YieldFrom)):
+                    self.k += 1
+                    tmp = f"it__{hit[0].name.strip('_')}{self.k}"
+                    asg = ast.copy_location(ast.Assign(targets=[ast.Name(id=tmp, ctx=ast.Store())], value=s.iter), s)
+                    s.iter = ast.copy_location(ast.Name(id=tmp, ctx=ast.Load()), s)
+                    ast.fix_missing_locations(asg)
+                    return self._stmt(fi, asg, nested, depth + 1) + [s]
+            return r
         # position: which expression of s is evaluated first
         if isinstance(s, ast.Expr):
             field = "value"
